@@ -11,14 +11,18 @@ from vcheck.core import PyRepo, AnalysisError, call_name, const_value, dotted_na
 from vcheck.rules import cfg_of
 
 MANIFEST = dict(
-    text="Constant-table validation plus formula conformance by symbolic normal forms (not numerical testing): (1) the two epochs' "
-         "Euler rotation tables are read from the AST and checked in 30-digit arithmetic: inverse selector pairs have psi/phi exchanged, "
-         "stheta negated and ctheta equal, |s^2+c^2-1| <= 1e-9, and the entries agree within 1e-7 rad with the documented J2000 pole/node "
-         "constants (all three pairs) and the standard B1950 galactic pole / obliquity; (2) the Euler core and the zxz rotation are "
-         "abstractly interpreted to terms for every selector and epoch and compared with the astrolib definition; the asin argument must "
+    text="Constant validation plus formula conformance by symbolic normal forms (not numerical testing): (1) the Euler core is abstractly "
+         "interpreted to terms for every selector and epoch; the rotation constants it actually uses (psi, sin/cos theta, phi) are read off "
+         "those terms -- wherever the tables are stored -- and checked in 30-digit arithmetic: inverse selector pairs have psi/phi exchanged, "
+         "stheta negated and ctheta equal, the pair used has |s^2+c^2-1| <= 1.5e-14, and the constants agree within 1e-7 rad with the documented "
+         "J2000 pole/node constants (all three pairs) and the standard B1950 galactic pole / obliquity; the 6-entry literal tables are located "
+         "through their tie to the constants used and must satisfy |s^2+c^2-1| <= 1e-9; (2) the Euler core and the zxz rotation terms are "
+         "compared with the astrolib definition; the asin argument must "
          "be clamped on both sides; the output longitude is a positive-offset modulo 2pi (range [0,360)); (3) the six wrappers map to "
          "selectors 1..6 and forward epoch and dtype; (4) unit-vector conversions and their range fold carry the units of the chosen "
-         "option; SDSS node/pole constants and formulas; range checks raise; (5) longitude shifting wraps with >= at the open upper end.",
+         "option; SDSS node/pole constants and formulas; range checks raise; (5) longitude shifting: the evaluated result of shiftlon for a "
+         "negative / non-negative / absent shift is split into guarded cases and each case is shown by interval reasoning to lie in the "
+         "documented interval (open at 360) and to differ from lon - shift by whole turns; the range-fold loops are checked by one symbolic step.",
     note="Not decided: 1e-5 / 1e-9 degree tolerances, isometry numerically; B1950 ecliptic<->galactic constants are not documented in "
          "the source (relations only). Trusted: sympy normaliser, mpmath.",
     technique="static analysis: literal-table validation in exact/high-precision arithmetic, abstract interpretation over a symbolic term domain with normal-form comparison",
@@ -167,13 +171,18 @@ def tables(chk, repo, fi, eff):
                    "the rotation constants (psi, sin/cos theta, phi) of every selector can be read off the evaluated terms of euler()")
             continue
         psi, st, ct, phi = [[_mpf(e[k]) for e in E] for k in ("psi", "stheta", "ctheta", "phi")]
-        # the literal tables behind the constants
+        # the literal tables behind the constants: psi and phi are used as tabulated; the sine/cosine pair used is the tabulated pair up to a
+        # common positive factor (renormalisation), so the pair of tables is found by direction, whatever its norm
         raw = {}
-        for nm, vals, tol, circ in (("psi", psi, tiny, True), ("phi", phi, tiny, True), ("stheta", st, mp.mpf("1e-10"), False), ("ctheta", ct, mp.mpf("1e-10"), False)):
+        for nm, vals in (("psi", psi), ("phi", phi)):
             for sv, wh in seqs:
-                if all(((_circ(a - b) if circ else abs(a - b)) <= tol) for a, b in zip(sv, vals)):
+                if all(_circ(x - y) <= tiny for x, y in zip(sv, vals)):
                     raw[nm] = (sv, wh)
                     break
+        for sv, wh in seqs:
+            for cv, wh2 in seqs:
+                if "stheta" not in raw and all(abs(sv[i] * ct[i] - cv[i] * st[i]) <= tiny and sv[i] * st[i] + cv[i] * ct[i] > mp.mpf("0.5") for i in range(6)):
+                    raw["stheta"], raw["ctheta"] = (sv, wh), (cv, wh2)
         found = len(raw) == 4
         chk.ob("R09.5", "euler[%s]::selector-is-one-based" % ep, True if found else None, fi.where(),
                "select = n uses the n-th entry of the tabulated psi / stheta / ctheta / phi (literal tables %s)"
@@ -520,7 +529,7 @@ def sdss(chk, repo):
         chk.ob("R09.7", "eq2sdss::ceta", bool(ok), fi.where(), "ceta = atan2(sin dec, sin(ra-node) cos dec) - etapole in degrees, folded into [-180,180]")
     else:
         chk.ob("R09.7", "eq2sdss::returns-pair", False, fi.where(), "got %r" % (r,))
-    _range_checks(chk, fi, {"ra": ("0.0", "360.0"), "dec": ("-90.0", "90.0")})
+    _range_checks(chk, fi, {"ra_in": ("0.0", "360.0"), "dec_in": ("-90.0", "90.0")})
     lam, eta = symx.symbols("clambda", "ceta")
     fi = repo.func(CO + "sdss2eq")
     chk.analysed_unit(fi.qualname)
@@ -544,80 +553,386 @@ def sdss(chk, repo):
         chk.ob("R09.7", "sdss2eq::range-fold-roles", len(folds) == 1 and [norm(a) for a in folds[0].args] == ["dec", "ra"], fi.where(), "atbound2(latitude, longitude) folds the pair into range")
     else:
         chk.ob("R09.7", "sdss2eq::returns-pair", False, fi.where(), "got %r" % (r,))
-    _range_checks(chk, fi, {"clambda": ("-90.0", "90.0"), "ceta": ("-180.0", "180.0")})
+    _range_checks(chk, fi, {"clambda_in": ("-90.0", "90.0"), "ceta_in": ("-180.0", "180.0")})
+
+
+def _disjuncts(t):
+    if isinstance(t, ast.BoolOp) and isinstance(t.op, ast.Or):
+        return [d for v in t.values for d in _disjuncts(v)]
+    if isinstance(t, ast.BinOp) and isinstance(t.op, ast.BitOr):
+        return _disjuncts(t.left) + _disjuncts(t.right)
+    return [t]
+
+
+_LOW = ("_V.min() < _B", "_B > _V.min()", "np.min(_V) < _B", "min(_V) < _B", "(_V < _B).any()", "np.any(_V < _B)", "any(_V < _B)", "np.amin(_V) < _B")
+_HIGH = ("_V.max() > _B", "_B < _V.max()", "np.max(_V) > _B", "max(_V) > _B", "(_V > _B).any()", "np.any(_V > _B)", "any(_V > _B)", "np.amax(_V) > _B")
 
 
 def _range_checks(chk, fi, want):
+    """want: {input parameter: (lo, hi)}.  A raise is reached when the (private copy of the) parameter, not yet converted to radians, has an
+    element below lo, and when it has one above hi -- as one test joined by `|` / `or` or as separate tests."""
     cfg = cfg_of(fi)
     view = cfg.view()
-    tests = [t.replace(" ", "") for n in rules.raise_nodes(cfg) for t, lab in rules.controlling_tests(view, n)[:1] if lab == "T"]
-    for v, (lo, hi) in want.items():
-        w = "(%s.min()<%s)|(%s.max()>%s)" % (v, lo, v, hi)
-        chk.ob("R09.7", "%s::range-check::%s" % (fi.name, v), w in tests, fi.where(), "%s outside [%s,%s] is rejected (raise tests: %s)" % (v, lo, hi, tests))
+    IN, _ = view.reaching_defs()
+    guards = []          # (side, variable name, bound, branch node)
+    for n in rules.raise_nodes(cfg):
+        for b, lab in view.controlling_branches(n):
+            if b.kind != "branch" or lab != "T":
+                continue
+            for d in _disjuncts(rules.expand(b.ast.test, fi.node)):
+                for side, pats in (("lo", _LOW), ("hi", _HIGH)):
+                    for p_ in pats:
+                        m = pat.match(p_, d, commutative=False)
+                        if m and isinstance(m["_V"], ast.Name) and const_value(m["_B"]) is not None:
+                            guards.append((side, m["_V"].id, float(const_value(m["_B"])), b))
+    shown = sorted({(s_, v, bd) for s_, v, bd, _ in guards})
+    for prm, (lo, hi) in want.items():
+        got = {}
+        for side, v, bound, b in guards:
+            # the tested variable is the parameter or a copy of it that has not been updated since it was made
+            srcs = IN.get(b.id, {}).get(v, set())
+            ok = False
+            if v == prm and srcs == {cfg.entry.id}:
+                ok = True
+            elif len(srcs) == 1:
+                dn = cfg.node(next(iter(srcs)))
+                if dn.kind == "stmt" and isinstance(dn.ast, ast.Assign) and len(dn.ast.targets) == 1 and isinstance(dn.ast.targets[0], ast.Name) \
+                        and isinstance(dn.ast.value, ast.Call) and call_name(dn.ast.value) in symx.IDENTITY_FUNCS and dn.ast.value.args \
+                        and norm(dn.ast.value.args[0]) == prm:
+                    ok = True
+            if ok:
+                got.setdefault(side, set()).add(bound)
+        name = prm[:-3] if prm.endswith("_in") else prm
+        ok = float(lo) in got.get("lo", ()) and float(hi) in got.get("hi", ())
+        chk.ob("R09.7", "%s::range-check::%s" % (fi.name, name), ok, fi.where(),
+               "%s outside [%s,%s] is rejected before any unit conversion (raise guards found: %s)" % (name, lo, hi, shown))
+
+
+# ---------------------------------------------------------------------------
+# longitude shifting / wrapping: decided on the evaluated terms by interval reasoning over the guarded cases
+class _Iv:
+    """interval of reals with open / closed ends (ends are sympy numbers or +-oo)"""
+
+    def __init__(self, lo, lc, hi, hc):
+        self.lo, self.lc, self.hi, self.hc = sp.sympify(lo), bool(lc) and lo != -sp.oo, sp.sympify(hi), bool(hc) and hi != sp.oo
+
+    def empty(self):
+        return self.lo > self.hi or (self.lo == self.hi and not (self.lc and self.hc))
+
+    def scale(self, k):
+        if k >= 0:
+            return _Iv(self.lo * k, self.lc, self.hi * k, self.hc) if k != 0 else _Iv(0, True, 0, True)
+        return _Iv(self.hi * k, self.hc, self.lo * k, self.lc)
+
+    def add(self, o):
+        return _Iv(self.lo + o.lo, self.lc and o.lc, self.hi + o.hi, self.hc and o.hc)
+
+    def meet(self, o):
+        if self.lo > o.lo or (self.lo == o.lo and not self.lc):
+            lo, lc = self.lo, self.lc
+        else:
+            lo, lc = o.lo, o.lc
+        if self.hi < o.hi or (self.hi == o.hi and not self.hc):
+            hi, hc = self.hi, self.hc
+        else:
+            hi, hc = o.hi, o.hc
+        return _Iv(lo, lc, hi, hc)
+
+    def within(self, o):
+        okl = self.lo > o.lo or (self.lo == o.lo and (o.lc or not self.lc))
+        okh = self.hi < o.hi or (self.hi == o.hi and (o.hc or not self.hc))
+        return bool(okl and okh)
+
+    def __str__(self):
+        return "%s%s, %s%s" % ("[" if self.lc else "(", self.lo, self.hi, "]" if self.hc else ")")
+
+
+def _range_of(e, dom):
+    """interval of a linear combination (rational coefficients) of atoms with known ranges; Mod(x, m), m > 0 a number, ranges over [0, m)"""
+    e = sp.expand(e)
+    out = _Iv(0, True, 0, True)
+    for atom, co in e.as_coefficients_dict().items():
+        if not co.is_number or not co.is_real:
+            return None
+        if atom == 1:
+            iv = _Iv(co, True, co, True)
+        else:
+            if atom in dom:
+                base = dom[atom]
+            elif isinstance(atom, sp.Mod) and atom.args[1].is_number and atom.args[1] > 0:
+                base = _Iv(0, True, atom.args[1], False)
+            else:
+                return None
+            iv = base.scale(co)
+        out = out.add(iv)
+    return out
+
+
+def _guarded_cases(value, conds=()):
+    """[(constraints, value)]: the Piecewise sub-terms of the value (and of the constraints met on the way) split into guarded plain cases"""
+    pw = None
+    for t in (value,) + tuple(conds):
+        for x in sp.preorder_traversal(t):
+            if isinstance(x, sp.Piecewise):
+                pw = x
+                break
+        if pw is not None:
+            break
+    if pw is None:
+        # the guards as a disjunction of conjunctions of comparisons (an if-then-else guard comes from comparing a wrapped value)
+        try:
+            dnf = sp.to_dnf(sp.And(*conds), simplify=False) if conds else sp.true
+        except Exception:
+            return [(list(conds), value)]
+        if dnf is sp.false:
+            return []
+        out = []
+        for alt in (dnf.args if isinstance(dnf, sp.Or) else [dnf]):
+            if alt is sp.false:
+                continue
+            out.append(([] if alt is sp.true else (list(alt.args) if isinstance(alt, sp.And) else [alt]), value))
+        return out
+    out = []
+    before = []
+    for v, c in pw.args:
+        cs = [x.xreplace({pw: v}) for x in conds] + [sp.Not(b) for b in before] + ([c] if c is not sp.true else [])
+        out += _guarded_cases(value.xreplace({pw: v}), tuple(cs))
+        before.append(c)
+    return out
+
+
+def _case_ranges(term, dom):
+    """[(value, interval of the value under its guard, step = value - unwrapped value)] for the feasible cases of a wrap term, or None when a
+    guard is not a comparison of the (unwrapped) value with a number"""
+    base = term
+    while isinstance(base, sp.Piecewise):
+        d = [v for v, c in base.args if c == sp.true]
+        if not d:
+            return None
+        base = d[0]
+    out = []
+    for conds, v in _guarded_cases(term):
+        iv = _range_of(v, dom)
+        if iv is None:
+            return None
+        for c in conds:
+            if not isinstance(c, (sp.Lt, sp.Le, sp.Gt, sp.Ge)):
+                return None
+            d = c.lhs - c.rhs                      # d > 0, d >= 0, d < 0 or d <= 0
+            lower = isinstance(c, (sp.Gt, sp.Ge))
+            closed = isinstance(c, (sp.Ge, sp.Le))
+            k = sp.simplify(d - v)
+            if k.is_number:                        # v + k (op) 0
+                bound = -k
+            else:
+                k = sp.simplify(d + v)
+                if not k.is_number:
+                    return None
+                bound, lower = k, not lower        # -v + k (op) 0
+            iv = iv.meet(_Iv(bound, closed, sp.oo, False) if lower else _Iv(-sp.oo, False, bound, closed))
+        if not iv.empty():
+            out.append((v, iv, sp.simplify(v - base)))
+    return out, base
+
+
+def _multiple_of_turn(d, turn=360):
+    """is d a whole number of turns?  Mod(x, turn) is x minus an unknown whole number of turns"""
+    ks = []
+
+    def unmod(e):
+        k = sp.Dummy("k", integer=True)
+        ks.append(k)
+        return e.args[0] - turn * k
+    d = d.replace(lambda e: isinstance(e, sp.Mod) and sp.simplify(e.args[1] - turn) == 0, unmod)
+    q = sp.expand(d / turn)
+    if q.free_symbols - set(ks):
+        return False
+    return all(co.is_integer for co in q.as_coefficients_dict().values())
 
 
 def shift(chk, repo):
+    """R09.8: shiftlon(lon, shift, wrap) is evaluated to a term for a negative shift, a non-negative shift, and no shift with / without wrapping;
+    with the documented input range lon in [0,360) each guarded case of the term must land in the documented interval, differ from lon - shift by
+    whole turns, and a single 360-degree step must suffice (the shift is reduced modulo 360 first)."""
     fi = repo.func(CO + "shiftlon")
     chk.analysed_unit(fi.qualname)
     se = symx.SymEval(repo)
-    lon, s = symx.symbols("lon", "s")
-    # negative shift: lon + |s| mod 360, wrap at the *closed* lower / open upper end
-    for neg in (True, False):
-        r = se.run(fi, {"lon_input": lon, "shift": s}, {"negshift": neg})
-        # the evaluator follows `if negshift:` with the literal flag only if negshift is not re-assigned; evaluate both arms by hand instead
-    fn = fi.node
-    cfg = cfg_of(fi)
-    view = cfg.view()
-    wraps = []
-    for n in cfg.nodes:
-        a = n.ast
-        if n.kind == "stmt" and isinstance(a, ast.Assign) and isinstance(a.value, ast.Call) and call_name(a.value) == "where" and len(a.value.args) == 1:
-            c = a.value.args[0]
-            if isinstance(c, ast.Compare):
-                ts = dict(rules.controlling_tests(view, n))
-                wraps.append((n, c, ts))
-    for n, c, ts in wraps:
-        txt = norm(c)
-        if ts.get("shift is not None") == "T" and ts.get("negshift") == "T":
-            ok = isinstance(c.ops[0], ast.GtE) and norm(c.comparators[0]) in ("360.0", "360")
-            chk.ob("R09.8", "shiftlon::upper-wrap-comparator", ok, fi.where(n.ast),
-                   "the target interval [0,360) is open at the top, so the upper wrap must use >= 360 (found `%s`): with > a result of exactly 360 escapes the interval" % txt)
-        elif ts.get("shift is not None") == "T" and ts.get("negshift") == "F":
-            ok = isinstance(c.ops[0], ast.Lt) and norm(c.comparators[0]) in ("0.0", "0")
-            chk.ob("R09.8", "shiftlon::lower-wrap-comparator", ok, fi.where(n.ast), "values below 0 are wrapped up (found `%s`)" % txt)
-        elif ts.get("wrap") == "T":
-            ok = isinstance(c.ops[0], ast.Gt) and norm(c.comparators[0]) in ("180", "180.0")
-            chk.ob("R09.8", "shiftlon::wrap-to-[-180,180]", ok, fi.where(n.ast), "without a shift, values above 180 are lowered by 360 (found `%s`)" % txt)
-    chk.ob("R09.8", "shiftlon::three-wraps", len(wraps) == 3, fi.where(), "three wrap sites found (%d)" % len(wraps))
-    # |shift| reduced mod 360 so that a single wrap suffices; sign handled by the two arms
-    env = {}
-    for x in sorted([y for y in walk_no_nested(fn) if isinstance(y, ast.Assign)], key=lambda y: y.lineno):
-        env.setdefault(norm(x.targets[0]), []).append(norm(x.value))
-    ok = env.get("abs_shift") == ["abs(shift)", "abs_shift % 360.0"] or env.get("abs_shift") == ["abs(shift) % 360.0"]
-    chk.ob("R09.8", "shiftlon::shift-reduced-mod-360", ok, fi.where(), "|shift| is reduced modulo 360 so one wrap step suffices (%s)" % env.get("abs_shift"))
-    augs = [(norm(x.target), type(x.op).__name__, norm(x.value), dict(rules.controlling_tests(view, rules.node_of_stmt(cfg, x)))) for x in walk_no_nested(fn) if isinstance(x, ast.AugAssign)]
-    want = {("lon", "Add", "abs_shift", "T"), ("lon", "Sub", "abs_shift", "F")}
-    got = {(t, o, v, ts.get("negshift")) for t, o, v, ts in augs if v == "abs_shift"}
-    chk.ob("R09.8", "shiftlon::result-is-lon-minus-shift", got == want, fi.where(), "negative shift adds |shift|, positive subtracts it (result = lon - shift mod 360): %s" % sorted(got))
-    steps = {(t, o, v) for t, o, v, ts in augs if v != "abs_shift"}
-    chk.ob("R09.8", "shiftlon::wrap-steps-are-360", steps == {("lon[w]", "Sub", "360.0"), ("lon[w]", "Add", "360.0"), ("lon[w]", "Sub", "360")}, fi.where(),
-           "each wrap moves by exactly one turn (%s)" % sorted(steps))
+    lon = sp.Symbol("lon", real=True)
+    sneg, spos = sp.Symbol("s", negative=True), sp.Symbol("s", nonnegative=True)
+    dom = {lon: _Iv(0, True, 360, False), sneg: _Iv(-sp.oo, False, 0, False), spos: _Iv(0, True, sp.oo, False)}
+    confs = [("neg", {"lon_input": lon, "shift": sneg}, {"wrap": True}, lon - sneg, _Iv(0, True, 360, False), "shiftlon::upper-wrap-comparator",
+              "a negative shift moves the longitude up and the result lies in [0,360): the interval is open at the top, so a value of exactly 360 has to be wrapped too (>= 360, not > 360)"),
+             ("pos", {"lon_input": lon, "shift": spos}, {"wrap": True}, lon - spos, _Iv(0, True, 360, False), "shiftlon::lower-wrap-comparator",
+              "a non-negative shift moves the longitude down and the result lies in [0,360): values below 0 are wrapped up"),
+             ("wrap", {"lon_input": lon}, {"wrap": True}, lon, _Iv(-180, True, 180, True), "shiftlon::wrap-to-[-180,180]",
+              "without a shift, wrap=True maps [0,360) into [-180,180]: values above 180 are lowered by 360")]
+    terms = {}
+    nwrap = 0
+    congr, steps, reduced, unrec = [], [], [], []
+    for nm, args, flags, want, target, key, what in confs:
+        r = se.run(fi, dict(args), dict(flags))
+        terms[nm] = r
+        cr = _case_ranges(r, dom) if isinstance(r, sp.Basic) else None
+        if cr is None:
+            unrec.append(nm)
+            chk.ob("R09.8", key, None, fi.where(), "%s: the evaluated result is not a value wrapped under comparisons of that value with numbers: %s" % (what, str(r)[:160]))
+            continue
+        cases, base = cr
+        bad = [(v, iv) for v, iv, st in cases if not iv.within(target)]
+        chk.ob("R09.8", key, not bad, fi.where(),
+               "%s (cases: %s)" % (what, "; ".join("%s in %s" % (v, iv) for v, iv, st in cases)))
+        if any(st != 0 for v, iv, st in cases):
+            nwrap += 1
+        steps += [(nm, st) for v, iv, st in cases if not (st.is_number and (st / 360).is_integer)]
+        congr.append((nm, _multiple_of_turn(base - want)))
+        rb = _range_of(base, dom)
+        if nm != "wrap":
+            reduced.append((nm, rb is not None and rb.within(_Iv(target.lo - 360, True, target.hi + 360, True)), str(rb)))
+    some = len(unrec) < len(confs)
+    chk.ob("R09.8", "shiftlon::three-wraps", (nwrap == 3) if not unrec else None, fi.where(),
+           "each of the three configurations (negative shift, non-negative shift, wrap without shift) wraps (%d of 3%s)" % (nwrap, "; not recognised: %s" % unrec if unrec else ""))
+    chk.ob("R09.8", "shiftlon::shift-reduced-mod-360", all(ok for _, ok, _ in reduced) if (some and not (set(unrec) & {"neg", "pos"})) else None, fi.where(),
+           "|shift| is reduced modulo 360 so one wrap step suffices: the shifted value stays within one turn of [0,360) (%s)" % ", ".join("%s: %s" % (n, r) for n, _, r in reduced))
+    chk.ob("R09.8", "shiftlon::result-is-lon-minus-shift", all(ok for _, ok in congr) if (some and not (set(unrec) & {"neg", "pos"})) else None, fi.where(),
+           "before wrapping the value is lon - shift up to whole turns (negative shift adds |shift|, non-negative subtracts it): %s" % congr)
+    chk.ob("R09.8", "shiftlon::wrap-steps-are-360", (not steps) if not unrec else None, fi.where(),
+           "each wrap moves by exactly one turn (offending steps: %s)" % steps)
+    # shiftra is shiftlon: same term in every configuration
     sr = repo.func(CO + "shiftra")
-    rets = [x for x in walk_no_nested(sr.node) if isinstance(x, ast.Return)]
-    chk.ob("R09.8", "shiftra::delegates", len(rets) == 1 and norm(rets[0].value) == "shiftlon(ra, shift=shift, wrap=wrap)", sr.where(), "shiftra is shiftlon")
+    chk.analysed_unit(sr.qualname)
+    same = True
+    diffs = []
+    for nm, args, flags, want, target, key, what in confs + [("nowrap", {"lon_input": lon}, {"wrap": False}, lon, None, None, None)]:
+        a2 = {("ra" if k == "lon_input" else k): v for k, v in args.items()}
+        r1 = terms[nm] if nm in terms else se.run(fi, dict(args), dict(flags))
+        r2 = se.run(sr, a2, dict(flags))
+        eq = isinstance(r1, sp.Basic) and isinstance(r2, sp.Basic) and symx.equal(r1, r2)[0]
+        if not eq:
+            same = False
+            diffs.append("%s: %s vs %s" % (nm, str(r2)[:80], str(r1)[:80]))
+    chk.ob("R09.8", "shiftra::delegates", same, sr.where(), "shiftra(ra, shift, wrap) evaluates to the same term as shiftlon(ra, shift, wrap) in every configuration%s" % ("" if same else " (%s)" % "; ".join(diffs)))
+
+
+def _nonempty_cond(env, t):
+    """the element-wise condition whose being true somewhere the test `t` asks for (w.size > 0, len(w) > 0, mask.any(), np.any(mask), ...), or None"""
+    x = None
+    if isinstance(t, ast.Compare) and len(t.ops) == 1:
+        l, op, r = t.left, t.ops[0], t.comparators[0]
+        if const_value(l) is not None and const_value(r) is None:
+            l, r = r, l
+            op = {ast.Lt: ast.Gt, ast.LtE: ast.GtE, ast.Gt: ast.Lt, ast.GtE: ast.LtE}.get(type(op), type(op))()
+        n = const_value(r)
+        if (isinstance(op, (ast.Gt, ast.NotEq)) and n == 0) or (isinstance(op, ast.GtE) and n == 1):
+            t = l
+        else:
+            return None
+    if isinstance(t, ast.Attribute) and t.attr == "size":
+        x = t.value
+    elif isinstance(t, ast.Call) and call_name(t) in ("len", "count_nonzero") and len(t.args) == 1:
+        x = t.args[0]
+    elif isinstance(t, ast.Call) and call_name(t) in ("any", "sum") and isinstance(t.func, ast.Attribute) and not t.args \
+            and not (isinstance(t.func.value, ast.Name) and t.func.value.id in ("np", "numpy")):
+        x = t.func.value
+    elif isinstance(t, ast.Call) and call_name(t) == "any" and len(t.args) == 1:
+        x = t.args[0]
+    if x is None:
+        return None
+    try:
+        v = env.ev(x)
+    except AnalysisError:
+        return None
+    return v.cond if isinstance(v, symx.Mask) else None
 
 
 def folds(chk, repo):
+    """R09.8 atbound(longitude, minval, maxval): each while loop is checked by one symbolic step from an arbitrary state L: the loop runs while
+    some element satisfies C(L); the body moves exactly the elements satisfying C(L) by one turn in the direction that undoes C; and the loop
+    test after the body is C of the *updated* value (recomputed each step)."""
     fi = repo.func(CO + "atbound")
     chk.analysed_unit(fi.qualname)
-    loops = sorted([x for x in walk_no_nested(fi.node) if isinstance(x, ast.While)], key=lambda x: x.lineno)
-    ok = len(loops) == 2
-    desc = []
-    for lp in loops:
-        aug = [x for x in lp.body if isinstance(x, ast.AugAssign)]
-        rew = [x for x in lp.body if isinstance(x, ast.Assign) and isinstance(x.value, ast.Call) and call_name(x.value) == "where"]
-        if len(aug) == 1 and len(rew) == 1:
-            desc.append((type(aug[0].op).__name__, norm(aug[0].value), norm(rew[0].value.args[0])))
-    want = [("Add", "360.0", "longitude < minval"), ("Sub", "360.0", "longitude > maxval")]
-    chk.ob("R09.8", "atbound::fold-structure", ok and desc == want, fi.where(),
-           "range fold: add 360 while below the minimum, subtract 360 while above the maximum (loop conditions recomputed each step): %s" % desc)
+    se = symx.SymEval(repo)
+    pl, pa, pb = [p for p in fi.params][:3]
+    L0 = sp.Symbol("L", real=True)
+    a, b = sp.Symbol("minval", real=True), sp.Symbol("maxval", real=True)
+    env = symx.Env(se, fi, fi.module, {pl: L0, pa: a, pb: b}, {})
+    found = {}
+    unrec = []
+    nloop = 0
+    for st in fi.node.body:
+        if not isinstance(st, ast.While):
+            if any(isinstance(x, ast.While) for x in ast.walk(st)):
+                unrec.append("nested loop at line %s" % st.lineno)
+                continue
+            if isinstance(st, ast.Return):
+                break
+            env.exec_stmt(st, sp.true)
+            continue
+        nloop += 1
+        L = sp.Symbol("L%d" % nloop, real=True)
+        # an arbitrary state at the loop head: the masks computed before the loop are re-expressed over it
+        cur = env.vars.get(pl)
+        if not isinstance(cur, sp.Basic):
+            unrec.append("loop %d: the folded array is not a term" % nloop)
+            continue
+        if cur != L0 and not isinstance(cur, sp.Symbol):
+            unrec.append("loop %d: state before the loop not recognised" % nloop)
+            continue
+        for k, v in list(env.vars.items()):
+            if isinstance(v, symx.Mask):
+                env.vars[k] = symx.Mask(v.cond.xreplace({cur: L}))
+        env.vars[pl] = L
+        c0 = _nonempty_cond(env, st.test)
+        if c0 is None or st.orelse:
+            unrec.append("loop %d: test `%s` is not a some-element-selected test" % (nloop, norm(st.test)))
+            continue
+        if isinstance(c0, (sp.Lt, sp.Le)) and sp.simplify(c0.lhs - L) == 0 and c0.rhs == a:
+            side, step, strict = "below-minimum", 360, isinstance(c0, sp.Lt)
+        elif isinstance(c0, (sp.Gt, sp.Ge)) and sp.simplify(c0.lhs - L) == 0 and c0.rhs == b:
+            side, step, strict = "above-maximum", -360, isinstance(c0, sp.Gt)
+        elif isinstance(c0, (sp.Gt, sp.Ge)) and sp.simplify(c0.rhs - L) == 0 and c0.lhs == a:
+            side, step, strict = "below-minimum", 360, isinstance(c0, sp.Gt)
+        elif isinstance(c0, (sp.Lt, sp.Le)) and sp.simplify(c0.rhs - L) == 0 and c0.lhs == b:
+            side, step, strict = "above-maximum", -360, isinstance(c0, sp.Lt)
+        else:
+            unrec.append("loop %d: condition %s is not a comparison of the array with minval / maxval" % (nloop, c0))
+            continue
+        try:
+            rets = env.exec_body(st.body, sp.true)
+        except AnalysisError as e:
+            unrec.append("loop %d: %s" % (nloop, e))
+            continue
+        L1 = env.vars.get(pl)
+        c1 = _nonempty_cond(env, st.test)
+        desc = {"moves": None, "recomputed": None}
+        if isinstance(L1, sp.Basic) and not rets:
+            if symx.equal(L1, sp.Piecewise((L + step, c0), (L, True)))[0]:
+                desc["moves"] = True
+            elif isinstance(L1, sp.Piecewise) and len(L1.args) == 2 and L1.args[1] == (L, sp.true) and (L1.args[0][0] - L).is_number:
+                # the selected elements are moved, but not by one turn against the violated bound, or not the elements tested
+                desc["moves"] = False
+            elif L1 == L:
+                desc["moves"] = False
+        if c1 is not None and isinstance(L1, sp.Basic):
+            if c1 == c0.xreplace({L: L1}):
+                desc["recomputed"] = True
+            elif c1 == c0:
+                desc["recomputed"] = False
+        if not strict and desc["moves"]:
+            desc["moves"] = None        # `<=` / `>=` against the bound: not the fold this rule knows
+        found.setdefault(side, []).append((desc, "while some %s: selected += %s -> %s; next test on %s" % (c0, step, L1, c1)))
+        env.vars[pl] = sp.Symbol("L%dx" % nloop, real=True)
+        for k, v in list(env.vars.items()):
+            if isinstance(v, symx.Mask):
+                env.vars.pop(k)
+    ok = None
+    alld = [d for v in found.values() for d, _ in v]
+    if any(d["moves"] is False or d["recomputed"] is False for d in alld):
+        ok = False
+    elif unrec or set(found) != {"below-minimum", "above-maximum"} or any(len(v) != 1 for v in found.values()) \
+            or any(d["moves"] is None or d["recomputed"] is None for d in alld):
+        ok = None
+    else:
+        ok = True
+    chk.ob("R09.8", "atbound::fold-structure", ok, fi.where(),
+           "range fold: add 360 while below the minimum, subtract 360 while above the maximum (loop conditions recomputed each step): %s%s"
+           % ("; ".join(t for v in found.values() for _, t in v), ("; not recognised: " + "; ".join(unrec)) if unrec else ""))
